@@ -118,7 +118,9 @@ Definition judge_copy (is_clone : bool) (c o : sexp) : verdict :=
                               else i <- get_nat "i" c ;; nth_error (nodes t) i in
     let model : option utree := if is_clone then Some (clone t)
                                 else i <- get_nat "i" c ;; subtree t i in
-    let dom := in_dom t in
+    (* copies are judged on every well-formed tree with distinct tip names, a root with a single
+       neighbour (a tip for the code) included *)
+    let dom := wf t && nodup_sorted (ssort (tip_names t)) && nodup_sorted (ssort (leaves t)) in
     match get_string "panic" o with
     | Some p => if dom then VOracle ("crash: " ++ p) else VCorr ("crash: " ++ p)
     | None =>
@@ -135,6 +137,10 @@ Definition judge_copy (is_clone : bool) (c o : sexp) : verdict :=
                  (if wf g then None else Some "the copy is not a well-formed rooted structure");
                  (if sset_eqb (ssort (leaves g)) (ssort (leaves sroot)) then None
                   else Some "the copy does not have the tips of its source");
+                 (if sset_eqb (ssort (tip_names g)) (ssort (tip_names sroot)) then None
+                  else Some "the copy does not have the tips (Tree.Tips()) of its source, taken as a root");
+                 (if Nat.eqb (length (nodes g)) (length (nodes sroot)) then None
+                  else Some "the copy does not have as many nodes as its source");
                  (if same_dists sroot g (ssort (leaves sroot)) then None
                   else Some "a path length between two tips differs in the copy");
                  (if is_clone then
